@@ -843,6 +843,43 @@ func (v *FV) execBody(fr *Frame, entry *State) []Exit {
 	return exits
 }
 
+// rangeSliceOf: for a range loop over a slice, the SSA value of that slice (the operand of the element
+// access indexed by rangeindex+1), nil otherwise.
+func rangeSliceOf(li *loopInfo) ssa.Value {
+	var next ssa.Value
+	for _, instr := range li.header.Instrs {
+		if phi, ok := instr.(*ssa.Phi); ok && phi.Comment == "rangeindex" {
+			for _, in2 := range li.header.Instrs {
+				if b, ok := in2.(*ssa.BinOp); ok && b.Op == token.ADD && b.X == ssa.Value(phi) {
+					next = b
+				}
+			}
+		}
+	}
+	if next == nil {
+		return nil
+	}
+	for blk := range li.body {
+		for _, instr := range blk.Instrs {
+			switch x := instr.(type) {
+			case *ssa.IndexAddr:
+				if x.Index == next {
+					if _, ok := x.X.Type().Underlying().(*types.Slice); ok {
+						return x.X
+					}
+				}
+			case *ssa.Index:
+				if x.Index == next {
+					if _, ok := x.X.Type().Underlying().(*types.Slice); ok {
+						return x.X
+					}
+				}
+			}
+		}
+	}
+	return nil
+}
+
 func (v *FV) exprEnv(fr *Frame, st *State, what string) *ExprEnv {
 	vars := map[string]TV{}
 	for k, x := range fr.params {
@@ -876,6 +913,12 @@ func (v *FV) loopHeader(fr *Frame, li *loopInfo, st *State) *State {
 		decs = fr.con.LoopDec[li.ordinal]
 	}
 	pos := posStr(v.eng.fset, li.minPos)
+	// `rangeslice`: the slice a `for .. range <slice expression>` loop iterates over (it has no name in the source)
+	if rs := rangeSliceOf(li); rs != nil {
+		if tv, ok := fr.vals[rs]; ok && tv.Sort == "Slice" {
+			st.env["rangeslice"] = tv
+		}
+	}
 	// entry check
 	env := v.exprEnv(fr, st, fmt.Sprintf("loop %d invariant", li.ordinal))
 	for i, c := range invs {
@@ -985,6 +1028,10 @@ func (v *FV) loopHeader(fr *Frame, li *loopInfo, st *State) *State {
 		if phi.Comment != "" {
 			ns.env[phi.Comment] = tv
 			delete(ns.addr, phi.Comment)
+		}
+		if phi.Comment == "rangeindex" {
+			// the hidden index of range loop n is also reachable as rangeindex<n> (an inner range loop hides `rangeindex`)
+			ns.env[fmt.Sprintf("rangeindex%d", li.ordinal)] = tv
 		}
 		if phi.Comment == "rangeindex" {
 			// built-in invariant of slice range loops: the hidden index starts at -1 and only grows
